@@ -26,13 +26,13 @@ type gLease struct {
 	kind int // 0 open, 1 acked by the consumer, 2 nacked/dead-lettered by the consumer
 }
 
-// verif:harness props=C03,C04,C05 tier=quick native=yes weight=400
+// verif:harness props=C03,C04,C05 tier=quick native=yes weight=400 tonly=C03
 // verif:bounds history of K=3 pull-API operations (thorough: 4, the first one fixed to a dequeue with batch 2) (the transport-neutral Server.Dequeue/AckSingle/NackSingle/Extend used by HTTP and gRPC) on a REAL MemoryStore with 2 messages of one route (the second one scheduled an arbitrary time ahead); before every operation the clock advances by an arbitrary amount (0..1h, symbolic, so every expiry/not-before boundary is hit to the nanosecond); operation from {dequeue batch 1, dequeue batch 2, ack, nack with arbitrary delay, dead-letter, extend by an arbitrary amount}, lease TTL arbitrary (0,1h]; presented lease id = any id handed out so far in this history (incl. ids of earlier lease epochs) or an unknown id; a ghost copy of the contract is kept alongside and compared after every step
 func VerifC03PullHistory() {
 	pullHistory(false)
 }
 
-// verif:harness props=C04,C03 tier=quick native=yes weight=300
+// verif:harness props=C04,C03 tier=quick native=yes weight=300 tonly=C04
 // verif:bounds the same history harness (K=3 steps; thorough 4 with the first one fixed to a dequeue with batch 2; real MemoryStore, ghost contract, arbitrary clock advances) with the BATCH operations in the mix: operation from {dequeue batch 2, ack, nack, batch ack and batch nack of two lease ids drawn from {first handed out, second handed out, unknown}}
 func VerifC04PullBatchHistory() {
 	pullHistory(true)
